@@ -121,6 +121,8 @@ type World struct {
 	Finished   []Msg
 	Produced   []Msg
 	ConnLeaked int // connections left open for good (see Resp.Gzip)
+	// Feeders: the harness threads that play the source's consumer side (they call Insert); Stop waits for them
+	Feeders sync.WaitGroup
 	BodiesOpen int
 
 	ReactorOut, PreOut, ArchOut, PostOut chan *models.Item
@@ -238,6 +240,9 @@ func (w *World) Stop() {
 		seencheck.Close()
 		seencheck.VerifReset()
 	}
+	// the source is stopped before the reactor (it needs the state table): hq.Stop / lq.Stop wait for their
+	// consumer goroutines, which sit in reactor.ReceiveInsert when the token pool is exhausted
+	w.Feeders.Wait()
 	close(w.sinkQuit)
 	w.sinkWG.Wait()
 	reactor.Stop()
